@@ -15,11 +15,15 @@ class Unsupported(Exception):
 
 
 class Sym:
-    __slots__ = ("t", "schema")
+    """z3 term.  With `enum` set the term is an Int *code*: the value is the
+    python string enum[code] (finite string domains are encoded as integers,
+    never as z3 strings)."""
+    __slots__ = ("t", "schema", "enum")
 
-    def __init__(self, t, schema=None):
+    def __init__(self, t, schema=None, enum=None):
         self.t = t
         self.schema = schema   # name of an abstract class schema (or None)
+        self.enum = enum
 
     def __repr__(self):
         return f"Sym({self.t})"
@@ -176,9 +180,83 @@ def is_sym(v):
     return isinstance(v, Sym)
 
 
+def is_enum(v):
+    return isinstance(v, Sym) and v.enum is not None
+
+
+def mk_enum(t, domain):
+    """enum symbol (python str if the code is a literal)"""
+    t = z3.simplify(t)
+    if z3.is_int_value(t):
+        return domain[t.as_long()]
+    return Sym(t, enum=list(domain))
+
+
+def enum_valid(t, domain):
+    return z3.And(t >= 0, t < len(domain))
+
+
+def enum_map(v, fn):
+    """apply a python function str -> str pointwise to an enum symbol"""
+    images = [fn(d) for d in v.enum]
+    newdom = []
+    for im in images:
+        if im not in newdom:
+            newdom.append(im)
+    t = z3.IntVal(newdom.index(images[-1]))
+    for code in reversed(range(len(images) - 1)):
+        t = z3.If(v.t == code, z3.IntVal(newdom.index(images[code])), t)
+    return mk_enum(t, newdom)
+
+
+def enum_eq(a, b):
+    """equality of enum symbol(s) / python strings"""
+    if isinstance(a, str) and isinstance(b, str):
+        return a == b
+    if isinstance(b, Sym) and b.enum is not None and not (isinstance(a, Sym) and a.enum is not None):
+        a, b = b, a
+    if isinstance(b, str):
+        if b not in a.enum:
+            return False
+        return a.t == a.enum.index(b)
+    if isinstance(b, Sym) and b.enum is not None:
+        if a.enum == b.enum:
+            return a.t == b.t
+        common = [x for x in a.enum if x in b.enum]
+        return zor(*[z3.And(a.t == a.enum.index(x), b.t == b.enum.index(x)) for x in common])
+    return False
+
+
+def enum_rank(v, universe):
+    """Int term: rank of the string value within sorted(universe)"""
+    if isinstance(v, str):
+        return z3.IntVal(universe.index(v))
+    t = z3.IntVal(universe.index(v.enum[-1]))
+    for code in reversed(range(len(v.enum) - 1)):
+        t = z3.If(v.t == code, z3.IntVal(universe.index(v.enum[code])), t)
+    return t
+
+
+def enum_less(a, b, strict=True):
+    da = [a] if isinstance(a, str) else a.enum
+    db = [b] if isinstance(b, str) else b.enum
+    uni = sorted(set(da) | set(db))
+    ra, rb = enum_rank(a, uni), enum_rank(b, uni)
+    return ra < rb if strict else ra <= rb
+
+
+def enum_to_string_term(v):
+    t = z3.StringVal(v.enum[-1])
+    for code in reversed(range(len(v.enum) - 1)):
+        t = z3.If(v.t == code, z3.StringVal(v.enum[code]), t)
+    return t
+
+
 def term(v):
     """z3 term of a python/Sym scalar."""
     if isinstance(v, Sym):
+        if v.enum is not None:
+            return enum_to_string_term(v)
         return v.t
     if isinstance(v, bool):
         return z3.BoolVal(v)
@@ -252,6 +330,9 @@ def zeq(a, b):
     if not isinstance(a, Sym) and not isinstance(b, Sym) \
             and not z3.is_expr(a) and not z3.is_expr(b):
         return a == b
+    if is_enum(a) or is_enum(b):
+        if (is_enum(a) or isinstance(a, str)) and (is_enum(b) or isinstance(b, str)):
+            return enum_eq(a, b)
     ta, tb = term(a), term(b)
     if ta.sort() != tb.sort():
         if z3.is_int(ta) and z3.is_real(tb):
